@@ -471,13 +471,13 @@ func (cx *c14ctx) checkStructure() bool {
 var c14txForms bool
 
 func c14probeTxForms() bool {
-	tax := obitax.NewTaxonomy()
-	if _, err := tax.AddNewTaxa(7, 7, "no rank", false, false); err != nil || tax.ReindexParent() != nil {
-		return false
-	}
 	ok := false
 	func() {
-		defer func() { recover() }()
+		defer func() { recover() }() // whatever happens here is judged by the cases, not by this probe
+		tax := obitax.NewTaxonomy()
+		if _, err := tax.AddNewTaxa(7, 7, "no rank", false, false); err != nil || tax.ReindexParent() != nil {
+			return
+		}
 		t, err := tax.Taxon("TX:7")
 		ok = err == nil && t != nil && t.Taxid() == 7
 	}()
@@ -1238,6 +1238,7 @@ const c14stall = 20 * time.Second // one implementation call normally takes micr
 // (parent walks terminate only through the root self-loop). Returns the family that hung ("" if none).
 func c14guarded(r *verifkit.Result, c c14case) (hungFamily string) {
 	cx := &c14ctx{r: r, c: c, m: c14newModel(c)}
+	c14submitted(r, c, cx.m)
 	skip := map[string]bool{}
 	for k, v := range c14disabled {
 		skip[k] = v
@@ -1275,6 +1276,47 @@ func c14guarded(r *verifkit.Result, c c14case) (hungFamily string) {
 			}
 			timer.Reset(time.Second)
 		}
+	}
+}
+
+// c14submitted counts, from the model alone and before any implementation call, what the case about to be
+// submitted contains (the vacuity guards are on these counters: whether a query came back is an answer of the
+// tree under test, what was asked is not).
+func c14submitted(r *verifkit.Result, c c14case, m *c14model) {
+	r.Count("submitted:taxonomies:"+c.Build, 1)
+	if !c.Full {
+		return
+	}
+	n := m.n
+	r.Count("submitted:taxonomies_full_queries", 1)
+	for a := 0; a < n; a++ {
+		if len(m.anc[a]) > 1 {
+			r.Count("submitted:paths_longer_than_1", 1)
+		}
+		sub := 0
+		for b := 0; b < n; b++ {
+			r.Count("submitted:lca_pairs:"+m.relation(a, b), 1)
+			if m.isAnc[a][b] {
+				r.Count("submitted:clade_pairs_true", 1)
+			}
+			if m.isAnc[b][a] {
+				sub++
+			}
+		}
+		if sub > 0 && sub < n {
+			r.Count("submitted:set_filters_proper_subset", 1)
+		}
+		for _, rank := range c14ranks {
+			if len(m.atRank(a, rank)) > 0 {
+				r.Count("submitted:taxon_at_rank_found", 1)
+			}
+		}
+	}
+	if n >= 3 {
+		r.Count("submitted:taxonomies_with_distinct_lca_triples", 1)
+	}
+	if n >= 2 {
+		r.Count("submitted:taxonomies_with_multi_taxid_sequences", 1)
 	}
 }
 
@@ -1817,21 +1859,21 @@ func TestVerifC14(t *testing.T) {
 
 	// vacuity guards (only meaningful when no query family had to be switched off)
 	if len(c14disabled) == 0 && !stop {
-		r.RequireNonVacuous("lca_pairs:unrelated-unequal-depth")
-		r.RequireNonVacuous("lca_pairs:ancestor-descendant")
-		r.RequireNonVacuous("lca_pairs:root-involved")
-		r.RequireNonVacuous("lca_triples_distinct")
-		r.RequireNonVacuous("seq_lca_multi")
-		r.RequireNonVacuous("taxon_at_rank_found")
-		r.RequireNonVacuous("clade_pairs_true")
-		r.RequireNonVacuous("paths_longer_than_1")
-		r.RequireNonVacuous("taxonomies:dump-sn")
-		r.RequireNonVacuous("taxonomies:dump-all")
-		r.RequireNonVacuous("requery_passes")
-		r.RequireNonVacuous("path_ownership_histories")
-		r.RequireNonVacuous("seq_lca_repeated_on_same_sequence")
-		r.RequireNonVacuous("set_filters_proper_subset")
-		r.RequireNonVacuous("seq_paths")
-		r.RequireNonVacuous("seq_validity_predicates")
+		// on what was submitted (c14submitted); the counters of the queries that came back (lca_pairs:*,
+		// lca_triples_distinct, seq_lca_multi, taxon_at_rank_found, clade_pairs_true, paths_longer_than_1,
+		// taxonomies:*, requery_passes, path_ownership_histories, seq_lca_repeated_on_same_sequence,
+		// set_filters_proper_subset, seq_paths, seq_validity_predicates) depend on the tree under test: counters only
+		r.RequireNonVacuous("submitted:lca_pairs:unrelated-unequal-depth")
+		r.RequireNonVacuous("submitted:lca_pairs:ancestor-descendant")
+		r.RequireNonVacuous("submitted:lca_pairs:root-involved")
+		r.RequireNonVacuous("submitted:taxonomies_with_distinct_lca_triples")
+		r.RequireNonVacuous("submitted:taxonomies_with_multi_taxid_sequences")
+		r.RequireNonVacuous("submitted:taxon_at_rank_found")
+		r.RequireNonVacuous("submitted:clade_pairs_true")
+		r.RequireNonVacuous("submitted:paths_longer_than_1")
+		r.RequireNonVacuous("submitted:taxonomies:dump-sn")
+		r.RequireNonVacuous("submitted:taxonomies:dump-all")
+		r.RequireNonVacuous("submitted:taxonomies_full_queries")
+		r.RequireNonVacuous("submitted:set_filters_proper_subset")
 	}
 }
